@@ -322,6 +322,21 @@ fn observe(tree: &crate::Tree, reads: &[u64]) -> std::result::Result<Obs, String
 			lists.push(out);
 		}
 	}
+	// the same listing restricted to timestamp windows (tombstones included, forward)
+	for (lo, hi) in [(50u64, 1000u64), (150, 1000), (100, 150), (150, 180), (0, 100)] {
+		let opts = HistoryOptions::new().with_tombstones(true).with_ts_range(lo, hi);
+		let mut it = tx.history_with_options(b"a".to_vec(), b"z".to_vec(), &opts).map_err(|e| format!("history [{lo},{hi}] failed: {e}"))?;
+		let mut out = Vec::new();
+		let mut ok = it.seek_first().map_err(|e| format!("history seek failed: {e}"))?;
+		let mut guard = 0;
+		while ok && guard < 100 {
+			guard += 1;
+			let k = it.key();
+			out.push((k.user_key().to_vec(), k.timestamp(), k.is_tombstone(), if k.is_tombstone() { Vec::new() } else { it.value().map_err(|e| format!("history value failed: {e}"))? }));
+			ok = it.next().map_err(|e| format!("history step failed: {e}"))?;
+		}
+		lists.push(out);
+	}
 	Ok((gets, lists))
 }
 
@@ -382,6 +397,8 @@ async fn timetravel_enum_impl(maxlen: usize, name: &str) {
 	let reads: Vec<u64> = vec![50, 100, 150, 200, 250, u64::MAX];
 	let mut kf21 = 0u64;
 	let mut kf21_example = String::new();
+	let mut kf28 = 0u64;
+	let mut kf28_example = String::new();
 	let mut cases = 0u64;
 	let mut nontrivial = 0u64;
 	let mut failures: Vec<String> = Vec::new();
@@ -544,9 +561,9 @@ async fn timetravel_enum_impl(maxlen: usize, name: &str) {
 						break;
 					}
 					if o2.1 != o_prev.1 && listing_changed.is_none() {
-						let i = (0..4).find(|&i| o2.1[i] != o_prev.1[i]).unwrap();
+						let i = (0..o2.1.len()).find(|&i| o2.1[i] != o_prev.1[i]).unwrap();
 						let show = |l: &Vec<(Vec<u8>, u64, bool, Vec<u8>)>| l.iter().map(|(k, t, d, v)| format!("{}@{}{}={}", String::from_utf8_lossy(k), t, if *d { " DEL" } else { "" }, String::from_utf8_lossy(v))).collect::<Vec<_>>();
-						listing_changed = Some(format!("index={index}: history listing (tombstones={}, backward={}) changed by {stage}: was {:?} and became {:?}", i / 2 == 1, i % 2 == 1, show(&o_prev.1[i]), show(&o2.1[i])));
+						listing_changed = Some(format!("index={index}: history listing ({}) changed by {stage}: was {:?} and became {:?}", if i < 4 { format!("tombstones={}, backward={}", i / 2 == 1, i % 2 == 1) } else { format!("timestamp window #{} of [(50,1000),(150,1000),(100,150),(150,180),(0,100)]", i - 4) }, show(&o_prev.1[i]), show(&o2.1[i])));
 					}
 					o_prev = o2;
 					if round == 0 {
@@ -585,6 +602,17 @@ async fn timetravel_enum_impl(maxlen: usize, name: &str) {
 					break;
 				}
 				if let Some(l) = listing_changed {
+					// a TIMESTAMP-WINDOW listing that changes, in a program with a hard delete or a replace, is a candidate
+					// for known finding F28 (the window is applied before the barrier logic and tables outside the
+					// window are pruned: an erased version shows through a window that excludes the barrier until
+					// compaction physically drops it)
+					let has_barrier = ops.iter().any(|o| matches!(o, VOp::HardDelAt(_) | VOp::Replace));
+					if l.contains("timestamp window") && has_barrier {
+						kf28 += 1;
+						if kf28_example.is_empty() {
+							kf28_example = format!("{{\"program_on_key_k\":\"{:?}\",\"mismatch\":{:?}}}", ops, l);
+						}
+					} else
 					// a listing that changes is excusable only as F21: index ON and two writes sharing a timestamp
 					if index && dup_ts {
 						f21_hit = true;
@@ -620,9 +648,10 @@ async fn timetravel_enum_impl(maxlen: usize, name: &str) {
 		}
 	}
 	println!(
-		"REPLAY-RESULT {{\"driver\":\"snapshot::{name}\",\"cases\":{cases},\"distinct_nontrivial\":{nontrivial},\"samples\":[{}],\"kf_candidates\":{{\"F21\":{{\"count\":{kf21},\"example\":{}}}}},\"failures\":[{}]}}",
+		"REPLAY-RESULT {{\"driver\":\"snapshot::{name}\",\"cases\":{cases},\"distinct_nontrivial\":{nontrivial},\"samples\":[{}],\"kf_candidates\":{{\"F21\":{{\"count\":{kf21},\"example\":{}}},\"F28\":{{\"count\":{kf28},\"example\":{}}}}},\"failures\":[{}]}}",
 		samples.join(","),
 		if kf21_example.is_empty() { "null".to_string() } else { kf21_example.clone() },
+		if kf28_example.is_empty() { "null".to_string() } else { kf28_example.clone() },
 		failures.join(",")
 	);
 	assert!(failures.is_empty());
